@@ -208,6 +208,30 @@ theorem execute_block_binary_noise_executed (p : Par) (L : Nat) (hok : BrOk p L)
     rw [this, h1]
     rfl
 
+/-! ## Circuit bootstrapping: the blind-rotation stage of `CbtContract`, executed -/
+
+/-- **`cbt_gives_ggsw_noise_executed`** — `C15Noise.cbt_gives_ggsw_noise` with the blind rotation EXECUTED (no `BrMachine` contract): for the
+executed block loop on good key elements, a trace `T` (additive, not increasing the measure: C03's trace operator; `hrow` is what
+`C03.glwe_trace_loop_decrypts_d1` states for the row, `hcell` what `C04.expand_cell_decrypts` states for the cells) the rows and cells of the
+bootstrapped GGSW are the traced rotated table up to `Ebr + Bt`, resp. `S1·(Ebr + Bt) + Bx`, `Ebr = 2·n_lwe·brB + q·brU`: a bound in the KEY errors only. -/
+theorem cbt_gives_ggsw_noise_executed (p : Par) (L : Nat) (hok : BrOk p L) (hN2 : 2 * p.N < 2 ^ 62)
+    (acc0 : List Col) (hacc : WfC p acc0) (blocks : List (List (Int × GBit p.N)))
+    (hlen : ∀ blk ∈ blocks, blk.length ≤ L) (hgood : ∀ blk ∈ blocks, ∀ x ∈ blk, Good p x.2 ∧ |x.1| < 2 ^ 62)
+    (hkey : ∀ blk ∈ blocks, OneHot (blk.map fun x => x.2.bit))
+    (T : Ks.R p.N → Ks.R p.N) (hTadd : ∀ x y, T (x + y) = T x + T y) (hTle : ∀ x, RingNu.nu p.modulus p.N (T x) ≤ RingNu.nu p.modulus p.N x)
+    (row cell s : Ks.R p.N) (Bt Bx S1 : Int) (hS1 : 0 ≤ S1) (hs : ∀ x, RingNu.nu p.modulus p.N (s * x) ≤ S1 * RingNu.nu p.modulus p.N x) :
+    ∃ res, bbLoop p.big128 p.N p.b p.rs p.S (p.rank + 1) p.dnum acc0 (blocks.map blkKeys) = some res ∧
+      (RingNu.nu p.modulus p.N (row - T (phR p res)) ≤ Bt → RingNu.nu p.modulus p.N (cell - s * row) ≤ Bx →
+        RingNu.nu p.modulus p.N (row - T (rt p.N ^ RingNu.xexp p.N (keyRot blocks) * phR p acc0))
+            ≤ (2 * (nBits blocks * brB p) + blocks.length * brU p) + Bt ∧
+        RingNu.nu p.modulus p.N (cell - s * T (rt p.N ^ RingNu.xexp p.N (keyRot blocks) * phR p acc0))
+            ≤ S1 * ((2 * (nBits blocks * brB p) + blocks.length * brU p) + Bt) + Bx) := by
+  refine ⟨_, bbLoop_eq_exec p L hok hN2 blocks acc0 hacc hlen hgood, ?_⟩
+  intro hrow hcell
+  have h := (machine p L hok hN2).cbt_row_cell blocks acc0 hacc hlen hgood hkey T hTadd hTle row cell s Bt Bx S1 hS1 hs hrow hcell
+  rw [totalRot_eq] at h
+  exact h
+
 /-! ## Non-vacuity -/
 
 /-- the numeric side conditions hold at the parameters of the crate's blind-rotation test (`N = 2048`, radix `19`, rank `1`, two rows, three
